@@ -1,6 +1,7 @@
 import MimeModel.Model.Detect
 import MimeModel.Gen.Tree
 import MimeModel.Lemmas.JsonForward
+import MimeModel.Lemmas.JsonFuel
 /-
   C08 — well-formed JSON is recognised, whole or truncated.
 
@@ -9,7 +10,7 @@ import MimeModel.Lemmas.JsonForward
   nesting depth is `Spec.J.depth`.
 -/
 namespace Mime.C08
-open Mime Mime.Json Mime.Spec Mime.JsonLeaf Mime.JsonForward
+open Mime Mime.Json Mime.Spec Mime.JsonLeaf Mime.JsonForward Mime.JsonPrefix
 
 /-- regenerated facts about tree.go: `application/json` is a child of `text/plain`, tried
     after html, svg, xml, php and the shebang languages; its detector is `JSON` -/
@@ -118,6 +119,126 @@ theorem strict_accepts_whole (D : Bytes) (v : J.JVal) (lim : Nat)
           · simp [h]
           · simp [h]
         · cases hdoc
+
+/-- what `J.doc true D = some v` says, unfolded -/
+theorem doc_inv (D : Bytes) (v : J.JVal) (hdoc : J.doc true D = some v) :
+    ∃ c cs r, J.skipWs D = c :: cs ∧ (c = 0x7B ∨ c = 0x5B) ∧
+      J.value true (J.fuelFor D) D = .ok v r ∧ J.skipWs r = [] := by
+  unfold J.doc at hdoc
+  cases hf : J.firstNonWs D with
+  | none => simp [hf] at hdoc
+  | some c =>
+    simp only [hf] at hdoc
+    split at hdoc
+    · cases hdoc
+    · rename_i hc
+      have hc' : c = 0x7B ∨ c = 0x5B := by
+        simp only [Bool.and_eq_true, bne_iff_ne, ne_eq, not_and, Decidable.not_not] at hc
+        by_cases h1 : c = 0x7B
+        · exact Or.inl h1
+        · exact Or.inr (hc h1)
+      cases hval : J.value true (J.fuelFor D) D with
+      | more => simp [hval] at hdoc
+      | bad => simp [hval] at hdoc
+      | ok v' r =>
+        simp only [hval] at hdoc
+        split at hdoc
+        · rename_i hws
+          simp only [Option.some.injEq] at hdoc
+          subst hdoc
+          have hsk : ∃ cs, J.skipWs D = c :: cs := by
+            simp only [J.firstNonWs] at hf
+            cases hs : J.skipWs D with
+            | nil => simp [hs] at hf
+            | cons x xs => simp [hs] at hf; exact ⟨xs, by rw [hf]⟩
+          obtain ⟨cs, hsk⟩ := hsk
+          exact ⟨c, cs, r, hsk, hc', rfl, by simpa using hws⟩
+        · cases hdoc
+
+theorem looksLike_of_skipWs (b : Bytes) (c : Nat) (cs : Bytes) (h : J.skipWs b = c :: cs)
+    (hc : c = 0x7B ∨ c = 0x5B) : looksLikeObjectOrArray b = true :=
+  looksLike_of_firstNonWs b c (by simp [J.firstNonWs, h]) hc
+
+/-- the scanner's run on a whole RFC 8259 document: everything consumed, every byte counted -/
+theorem run_on_doc (D : Bytes) (v : J.JVal) (hdoc : J.doc true D = some v) (hdepth : J.depth v ≤ Gen.Json.maxRecursion) :
+    ∃ s', consumeAny Gen.Json.q_json Gen.Json.maxRecursion (J.fuelFor D) 0 D PState.fresh.reset = (some [], s') ∧
+      s'.ib = D.length := by
+  obtain ⟨c, cs, r, hsk, hc, hval, hr⟩ := doc_inv D v hdoc
+  have hfw := (forward_all Gen.Json.q_json Gen.Json.maxRecursion (J.fuelFor D)).1 0 D v r PState.fresh.reset hval
+    (delim_of_ws_only r (by simp [hr])) (Or.inr (by omega))
+  obtain ⟨f1, f2, _⟩ := hfw
+  rw [hr] at f1 f2
+  generalize consumeAny Gen.Json.q_json Gen.Json.maxRecursion (J.fuelFor D) 0 D PState.fresh.reset = res at f1 f2
+  obtain ⟨o, s'⟩ := res
+  simp only at f1 f2
+  subst f1
+  exact ⟨s', rfl, by rw [f2]; simp [PState.reset, PState.fresh]⟩
+
+/-- **C08 (truncated)**: when only the first `lim` bytes of an RFC 8259 document are examined
+    (`lim` no larger than the document, and past the opening bracket), they are accepted:
+    wherever the cut falls -/
+theorem strict_accepts_truncated (D : Bytes) (v : J.JVal) (lim : Nat)
+    (hdoc : J.doc true D = some v) (hdepth : J.depth v ≤ Gen.Json.maxRecursion)
+    (hopen : D.length - (J.skipWs D).length < lim) (hlim : lim ≤ D.length) :
+    jsonHelper (D.take lim) lim Gen.Json.q_json (tokObject ||| tokArray) = true := by
+  obtain ⟨c, cs, r, hsk, hc, _, _⟩ := doc_inv D v hdoc
+  obtain ⟨s', hrun, hib⟩ := run_on_doc D v hdoc hdepth
+  -- the cut keeps the opening bracket
+  have hskP : J.skipWs (D.take lim) = c :: cs.take (lim - (D.length - (J.skipWs D).length) - 1) := by
+    have := ((skipWs_take D lim).2 (by omega)).1
+    rw [this, hsk]
+    obtain ⟨j, hj⟩ : ∃ j, lim - (D.length - (J.skipWs D).length) = j + 1 := ⟨lim - (D.length - (J.skipWs D).length) - 1, by omega⟩
+    rw [hsk] at hj
+    rw [hj]
+    simp
+  have hlenP : (D.take lim).length = lim := by simp; omega
+  have hlook := looksLike_of_skipWs _ _ _ hskP hc
+  -- the scanner on the cut, with the document's fuel
+  have law := (prefix_all Gen.Json.q_json Gen.Json.maxRecursion (J.fuelFor D)).1 0 D PState.fresh.reset [] s' hrun
+  have hibP : (consumeAny Gen.Json.q_json Gen.Json.maxRecursion (J.fuelFor D) 0 (D.take lim) PState.fresh.reset).2.ib = lim := by
+    obtain ⟨_, _, l3⟩ := law
+    simp only [List.length_nil, Nat.sub_zero] at l3
+    by_cases hk : lim < D.length
+    · have := ((l3 lim).1 hk).1
+      rw [this]; simp [PState.reset, PState.fresh]
+    · have := (l3 lim).2 (by omega)
+      rw [this, hib]; omega
+  -- with the fuel `parse` supplies
+  have hfuel := consumeAny_fuel Gen.Json.q_json Gen.Json.maxRecursion 0 (D.take lim) PState.fresh.reset
+    (fuelFor (D.take lim)) (J.fuelFor D) (by simp [fuelFor]) (by simp only [J.fuelFor, hlenP]; omega)
+  have hflags := top_flags Gen.Json.maxRecursion (2 * (D.take lim).length + 3) (D.take lim) PState.fresh.reset c _ hskP (by decide)
+  have hff : fuelFor (D.take lim) = 2 * (D.take lim).length + 3 + 1 := by simp [fuelFor]
+  have hq : Gen.Json.q_json = [] := rfl
+  unfold jsonHelper parse parseWith
+  simp only [hlook, Bool.not_true, Bool.false_eq_true, ↓reduceIte]
+  rw [← hfuel] at hibP
+  rw [hff, hq] at hibP ⊢
+  generalize consumeAny [] Gen.Json.maxRecursion (2 * (D.take lim).length + 3 + 1) 0 (D.take lim) PState.fresh.reset = res at hibP hflags
+  obtain ⟨rv, sP⟩ := res
+  simp only at hibP hflags ⊢
+  obtain ⟨ht, hqs⟩ := hflags
+  have htok : ((classify c).tok &&& (tokObject ||| tokArray) == 0) = false := by
+    rcases hc with rfl | rfl <;> decide
+  simp only [hqs, Bool.not_true, Bool.false_or, ht, htok, Bool.false_eq_true, ↓reduceIte, hlenP, hibP]
+  have h0 : lim ≠ 0 := by omega
+  simp [h0]
+  omega
+
+/-- **C08**: an RFC 8259 document of depth at most the cap is accepted at every read limit
+    past its opening bracket: `raw` is what the reader hands over, the document itself or
+    its first `lim` bytes -/
+theorem strict_accepts (D : Bytes) (v : J.JVal) (lim : Nat)
+    (hdoc : J.doc true D = some v) (hdepth : J.depth v ≤ Gen.Json.maxRecursion)
+    (hopen : lim = 0 ∨ D.length - (J.skipWs D).length < lim) :
+    jsonHelper (if lim = 0 then D else D.take lim) lim Gen.Json.q_json (tokObject ||| tokArray) = true := by
+  by_cases h0 : lim = 0
+  · simp only [h0, ↓reduceIte]
+    exact strict_accepts_whole D v 0 hdoc hdepth (Or.inl rfl)
+  · simp only [h0, ↓reduceIte]
+    by_cases hl : lim ≤ D.length
+    · exact strict_accepts_truncated D v lim hdoc hdepth (by omega) hl
+    · rw [List.take_of_length_le (by omega)]
+      exact strict_accepts_whole D v lim hdoc hdepth (Or.inr (by omega))
 
 /- non-vacuity: a document with every kind of token -/
 example : (J.doc true [0x7B, 0x22, 0x61, 0x22, 0x3A, 0x5B, 0x31, 0x2C, 0x74, 0x72, 0x75, 0x65, 0x5D, 0x7D]).isSome = true := by
